@@ -1,2 +1,100 @@
-import NSG.Model.Coord
-/-! # C04 (theorems under construction) -/
+import NSG.Properties.C09
+/-! # C04 — an episode ends exactly when it should, for the right reason, and stays ended -/
+namespace NSG.Coord
+open NSG NSG.Defender
+
+/-- declarative reading of a win condition: every goal component is contained in the view -/
+def GoalMet (g : Goal) (v : View) : Prop :=
+  (∀ n ∈ g.nets, n ∈ v.nets) ∧ (∀ x ∈ g.known, x ∈ v.known) ∧ (∀ x ∈ g.controlled, x ∈ v.controlled) ∧
+  (∀ h ∈ akeys g.services, h ∈ akeys v.services ∧ ∀ x ∈ agetD h g.services, x ∈ agetD h v.services) ∧
+  (∀ h ∈ akeys g.data, h ∈ akeys v.data ∧ ∀ x ∈ agetD h g.data, x ∈ agetD h v.data) ∧
+  (∀ h ∈ akeys g.blocks, h ∈ akeys v.blocks ∧ ∀ x ∈ agetD h g.blocks, x ∈ agetD h v.blocks)
+
+theorem goalDict_iff {α} [DecidableEq α] (g k : AMap IP (List α)) :
+    goalDict g k = true ↔ ∀ h ∈ akeys g, h ∈ akeys k ∧ ∀ x ∈ agetD h g, x ∈ agetD h k := by
+  simp only [goalDict, List.all_eq_true, Bool.and_eq_true, decide_eq_true_eq, alookup_isSome_iff_mem_keys]
+
+/-- the goal check of the code (six subset tests, dictionary test = keys ⊆ keys ∧ per-key subset)
+is exactly "every goal component is contained in the view" -/
+theorem C04_goalCheck_iff (g : Goal) (v : View) : goalCheck g v = true ↔ GoalMet g v := by
+  simp only [goalCheck, GoalMet, Bool.and_eq_true, List.all_eq_true, decide_eq_true_eq, goalDict_iff, and_assoc]
+
+/-- the status rule with its precedence: goal, then detection, then timeout -/
+theorem C04_status (S : Settings) (ag : Agent) (a : Act) (roll : Frac) :
+    nextStatus S ag a roll =
+      if goalCheck (S.goal ag.role) ag.view then Status.success
+      else if isDetected S (ag.traj.map (·.act)) a roll then Status.fail
+      else if isTimeout S ag.role ag.steps then Status.timeoutReached else ag.status := rfl
+
+/-- reaching the goal exactly on the last allowed step (or while being detected) is a Success -/
+theorem C04_boundary (S : Settings) (ag : Agent) (a : Act) (roll : Frac)
+    (hg : GoalMet (S.goal ag.role) ag.view) : nextStatus S ag a roll = .success := by
+  simp [nextStatus, (C04_goalCheck_iff _ _).2 hg]
+
+theorem C04_timeout_iff (S : Settings) (r : Role) (steps : Nat) :
+    isTimeout S r steps = true ↔ ∃ n, S.maxSteps r = some n ∧ n ≠ 0 ∧ n ≤ steps := by
+  unfold isTimeout
+  cases h : S.maxSteps r with
+  | none => simp
+  | some n => cases n <;> simp
+
+/-- What one executed game action of a playing agent does (`v'` = the view the world returned):
+the counter grows by one, the view is the returned one, the status follows the rule above, the reward
+is the step reward. -/
+theorem C04_played (S : Settings) (ag : Agent) (a : Act) (v' : View) (roll : Frac) :
+    (playedAgent S ag a v' roll).steps = ag.steps + 1 ∧ (playedAgent S ag a v' roll).view = v' ∧
+    (playedAgent S ag a v' roll).reward = S.rStep ∧
+    (playedAgent S ag a v' roll).status = nextStatus S { ag with steps := ag.steps + 1, view := v' } a roll := by
+  simp [playedAgent]
+
+/-- The observation is final iff the new status is terminal (goal, detection, step limit) or no agent
+in the game - the acting one included, with its new status - is an attacker still playing. -/
+theorem C04_end_iff (s : St) (c : Nat) (ag2 : Agent) :
+    episodeEnds s c ag2 = true ↔
+      (ag2.status = .success ∨ ag2.status = .fail ∨ ag2.status = .timeoutReached) ∨
+      (∀ d ∈ s.ids, (if d = c then ag2 else s.agent d).status ≠ .playingWithTimeout) := by
+  simp only [episodeEnds, Bool.or_eq_true, Bool.not_eq_true', St.attackerPlaying]
+  constructor
+  · rintro (h | h)
+    · left; cases hs : ag2.status <;> simp_all [Status.terminal]
+    · right; intro d hd
+      have := List.any_eq_false.1 h d hd
+      by_cases hdc : d = c <;> simp_all [St.setAgent, St.agent]
+  · rintro (h | h)
+    · left; rcases h with h | h | h <;> simp [h, Status.terminal]
+    · right; rw [List.any_eq_false]; intro d hd
+      have := h d hd
+      by_cases hdc : d = c <;> simp_all [St.setAgent, St.agent]
+
+/-- The handler: a non-final observation is answered at once (`finishGame`: step reward, end = false);
+a final one parks at the end-of-episode barrier. -/
+theorem C04_handle_game (S : Settings) (s : St) (c : Nat) (a : Act) (o : Oracle) (v' : View)
+    (hc : s.conn c = .reading) (hg : s.inGame c = true) (he : (s.agent c).ended = false)
+    (hv : o.stepView = some v') :
+    deliver S s (.msg c (.game a) o) =
+      (let ag2 := playedAgent S (s.agent c) a v' o.roll
+       let s2 := s.updAgent c (fun _ => { ag2 with ended := episodeEnds s c ag2 })
+       if episodeEnds s c ag2 then settle S (s2.setConn c (.parked (.gameEnd a))) o s2.allEnded false
+       else finishGame s2 c a) := by
+  simp [deliver, hc, handle, hg, he, hv]
+
+/-- the non-final answer: OK, the returned view, exactly the step reward, end = false, no reason -/
+theorem C04_nonfinal_reply (s : St) (c : Nat) (a : Act) (ag0 ag2 : Agent)
+    (hin : s.agents c = some ag0) (hm : s.mute c = false) (hst : ag2.status.terminal = false) :
+    (finishGame (s.updAgent c (fun _ => { ag2 with ended := false })) c a).2 =
+      [.reply c { code := .ok, obs := some { view := ag2.view, reward := ag2.reward, ended := false, reason := none } }] := by
+  have : finalReason ag2.status = none := by cases h : ag2.status <;> simp_all [Status.terminal, finalReason]
+  simp [finishGame, emit, St.updAgent, St.agent, hm, hin, obsOf, this]
+
+/-- Absorbing: after the end every further game action is refused with FORBIDDEN, carrying the last
+view sent, the same final reward and the final reason - and nothing changes (no counter, no status). -/
+theorem C04_absorbing (S : Settings) (s : St) (c : Nat) (a : Act) (o : Oracle)
+    (hc : s.conn c = .reading) (hm : s.mute c = false) (hg : s.inGame c = true) (he : (s.agent c).ended = true) :
+    (deliver S s (.msg c (.game a) o)).2 =
+      [.reply c { code := .forbidden, obs := some { view := (s.agent c).obs.view, reward := (s.agent c).reward,
+                                                     ended := true, reason := some (s.agent c).status } }] ∧
+    SameGame s (deliver S s (.msg c (.game a) o)).1 := by
+  simp only [deliver, hc, handle, hg, he]
+  simpa using emit_error s c _ hc hm
+
+end NSG.Coord
